@@ -48,6 +48,8 @@ pub fn analyze_dir(
     target_dir: &str,
     qa: Vec<QualityAssurance>,
 ) -> HashMap<QualityAssurance, Vec<(String, BTreeSet<LineNumber>)>> {
+    #[cfg(solstat_verif)]
+    use crate::verif_shim::fs;
     //Initialize a new hashmap to keep track of all the optimizations across the target dir
     let mut qa_locations: HashMap<QualityAssurance, Vec<(String, BTreeSet<LineNumber>)>> =
         HashMap::new();
